@@ -14,7 +14,7 @@ LEVEL = "exploration"
 RULE = ("block 'routing': object of class {DimArray, Dataset, Axis} x name kind {public, underscore, class member (every name in dir(cls)), "
         "dimension name} x value type {str,int,float,list,dict,ndarray,None,bool} x action sequence set/get/hasattr/del and direct attrs "
         "entries under reserved names; block 'propagation': every listed operation class on arrays carrying array-level and axis-level "
-        "sentinel metadata (incl. mutable values). class = (block, class, name kind, value type) or (operation, ndim); trivial = none. "
+        "sentinel metadata (incl. mutable values); cross-sections handed out by iter / for-in / to_list / to_dataset count as indexing. class = (block, class, name kind, value type) or (operation, ndim); trivial = none. "
         "Guest shards re-run the C01-C18 workloads with the M-META monitor deciding.")
 ANCHORS = ["bases.__getattr__", "bases.__setattr__", "bases.__delattr__", "bases.attrs"]
 # entry points the workload calls itself; the other anchors are helpers behind them (counted as evidence only)
